@@ -517,7 +517,43 @@ func Weave(dir string) (*Report, error) {
 	}
 	sort.Strings(rep.SiteList)
 	sort.Strings(rep.Unwoven)
+	// Sub-packages of the library are copied but not woven: whatever they do with
+	// the operating system happens outside the simulation. They are scanned for
+	// imports of the seam packages, and each use is listed as not owned.
+	scanSubPackages(dir, rep)
 	return rep, nil
+}
+
+func scanSubPackages(root string, rep *Report) {
+	seam := map[string]bool{"os": true, "io/ioutil": true, "time": true, "math/rand": true, "os/exec": true, "os/signal": true, "syscall": true,
+		"path/filepath": true, "sync": true, "net": true, "log": true, "golang.org/x/sys/unix": true}
+	filepath.Walk(root, func(path string, info os.FileInfo, err error) error {
+		if err != nil {
+			return nil
+		}
+		if info.IsDir() {
+			n := info.Name()
+			if path != root && (n == "simrt" || n == "examples" || n == "testdata" || strings.HasPrefix(n, ".")) {
+				return filepath.SkipDir
+			}
+			return nil
+		}
+		if filepath.Dir(path) == root || !strings.HasSuffix(path, ".go") || strings.HasSuffix(path, "_test.go") {
+			return nil
+		}
+		f, err := parser.ParseFile(token.NewFileSet(), path, nil, parser.ImportsOnly)
+		if err != nil {
+			return nil
+		}
+		for _, im := range f.Imports {
+			ip := strings.Trim(im.Path.Value, "\"")
+			if seam[ip] {
+				rel, _ := filepath.Rel(root, path)
+				rep.Unwoven = append(rep.Unwoven, "sub-package file "+rel+" imports "+ip+" (sub-packages are not woven)")
+			}
+		}
+		return nil
+	})
 }
 
 func isBlank(e ast.Expr) bool {
